@@ -1,6 +1,7 @@
 """Building views from a case, computing solo references, common shrinking."""
 import copy
 
+from . import devices
 from .canon import dec_table, canon_row, canon_cell
 from .catalogue import RECIPES, World
 from .core import ddmin_lists
@@ -31,6 +32,11 @@ def build(e, stack, enc_tables, mode='alias', tempdir=None,
     the base recipe fed from the sources, the others are unary recipes."""
     if tables is None:
         tables = [dec_table(t) for t in enc_tables]
+    # the clock petl.util.random reads (default seeds, `wait` delays) is a
+    # simulated one, started afresh for every build: two builds of the same
+    # stack see the same readings, and no real sleep ever happens
+    import petl.util.random as prandom
+    prandom.time = devices.SimClock()
     w = World(tables, mode=mode, tempdir=tempdir, table_factory=table_factory)
     if wrap_sources:
         # the sources reach the recipe as petl Table objects (as in the
